@@ -384,6 +384,7 @@ class Search:
         next_i = first_index
         stop = False
         slots = {}
+        confirmed_classes = set()
 
         def submit():
             nonlocal next_i
@@ -415,7 +416,15 @@ class Search:
             out = doc["results"]
             for r in out:
                 if r.get("verdict") == "violation":
+                    cls = (r.get("oracle"), r.get("finding_key"))
+                    if cls in confirmed_classes and stop_on_violation:
+                        # the search is already stopping on a confirmed violation of this
+                        # class; do not spend minutes re-confirming the in-flight ones
+                        r["confirmed"] = "skipped (class already confirmed)"
+                        continue
                     self._confirm(r, out)
+                    if r.get("verdict") == "violation":
+                        confirmed_classes.add(cls)
             return out
 
         for _ in range(self.workers):
@@ -504,7 +513,7 @@ def list_reductions(xs, min_len=0):
     n = len(xs)
     if n <= min_len:
         return
-    size = n // 2
+    size = max(n // 2, 1)
     seen = set()
     while size >= 1:
         for start in range(0, n, size):
